@@ -223,6 +223,7 @@ package mq
 //@ func (*Connect).dump
 //@   requires w != nil
 //@   -- C18: the premise "the packets differ only in the credential bytes" means no other field shares memory with them
+//@   requires heapobj(p.username) && heapobj(p.password)                                          #C18
 //@   requires disjoint(p.protocolName, p.username) && disjoint(p.protocolName, p.password)      #C18
 //@   requires disjoint(p.clientID, p.username) && disjoint(p.clientID, p.password)              #C18
 //@   requires disjoint(p.authMethod, p.username) && disjoint(p.authMethod, p.password)          #C18
@@ -881,6 +882,7 @@ package mq
 
 //@ func (*Connect).String
 //@   -- C18: the premise "the packets differ only in the credential bytes" means no other field shares memory with them
+//@   requires heapobj(p.username) && heapobj(p.password)                                          #C18
 //@   requires disjoint(p.protocolName, p.username) && disjoint(p.protocolName, p.password)      #C18
 //@   requires disjoint(p.clientID, p.username) && disjoint(p.clientID, p.password)              #C18
 //@   requires disjoint(p.authMethod, p.username) && disjoint(p.authMethod, p.password)          #C18
